@@ -298,11 +298,23 @@ COLS = ["loads_min", "loads_max", "S_min", "S_max", "R", "epsilon_min", "epsilon
         "is_zero_mean_stress_and_strain", "run_index"]
 
 
+PROPS_OF_RECORDER = {"loads_min": "loads_min", "loads_max": "loads_max", "S_min": "S_min", "S_max": "S_max",
+                     "epsilon_min": "epsilon_min", "epsilon_max": "epsilon_max", "S_a": "S_a", "S_m": "S_m",
+                     "epsilon_a": "epsilon_a", "epsilon_m": "epsilon_m", "R": "R",
+                     "is_closed_hysteresis": "is_closed_hysteresis"}
+
+
 def collective_rows(rec):
     try:
         c = rec.collective
         cols = {k: c[k].to_numpy() for k in COLS}
         idx = [(int(h), int(a)) for h, a in c.index]
+        # the recorder's individual properties are views of the same recording
+        for attr, col in PROPS_OF_RECORDER.items():
+            v = np.asarray(getattr(rec, attr)).reshape(-1)
+            w = np.asarray(cols[col]).reshape(-1)
+            if len(w) and (len(v) != len(w) or not np.array_equal(np.asarray(v, dtype=np.float64), np.asarray(w, dtype=np.float64), equal_nan=True)):
+                raise ValueError("recorder.%s disagrees with recorder.collective[%r]" % (attr, col))
     except Exception as e:    # noqa
         raise RealCodeError("collective", e)
     rows = []
